@@ -51,7 +51,7 @@ def leaves_to_float(leaves, env):
 class Traced:
     """fn(*args) with args a pytree whose leaves are numeric arrays or object arrays of Poly."""
 
-    def __init__(self, fn, args, default_env=None):
+    def __init__(self, fn, args, default_env=None, dce=False):
         self.fn = fn
         self.leaves, self.treedef = jax.tree_util.tree_flatten(
             args, is_leaf=lambda x: isinstance(x, np.ndarray) and x.dtype == object)
@@ -72,6 +72,13 @@ class Traced:
         self.flat = flat
         self.closed, self.out_shape = jax.make_jaxpr(flat, return_shape=True)(*[jnp.asarray(x) for x in self.example])
         self.out_tree = jax.tree_util.tree_structure(self.out_shape)
+        if dce:
+            # dead-code elimination by JAX itself: equations that do not feed the returned values are dropped (they would
+            # only add contract hypotheses that no obligation can use)
+            from jax._src.interpreters import partial_eval as pe
+            jaxpr, used_in = pe.dce_jaxpr(self.closed.jaxpr, [True] * len(self.closed.jaxpr.outvars), instantiate=True)
+            assert all(used_in), "dce dropped an input"
+            self.closed = jax.extend.core.ClosedJaxpr(jaxpr, self.closed.consts)
 
     def n_eqns(self):
         return count_eqns(self.closed.jaxpr)
